@@ -99,6 +99,18 @@ def _c20_sensor_leaf(key):
     return run
 
 
+def _c02_ray_through_edge():
+    import magpylib as magpy
+    v = np.array([(0, 0, 0), (1, 0, 0), (0, 1, 0), (0, 0, 1)], float)
+    with warnings.catch_warnings():
+        warnings.simplefilter("ignore")
+        m = magpy.magnet.TriangularMesh.from_ConvexHull(points=v, polarization=(0, 0, 1))
+        x = (0.120012345, 0.059923456, 0.574932109)
+        J = magpy.getJ(m, x)
+    return bool(np.all(J == 0)), {"reproduce": "m = magpylib.magnet.TriangularMesh.from_ConvexHull(points=[(0,0,0),(1,0,0),(0,1,0),(0,0,1)], polarization=(0,0,1)); magpylib.getJ(m, (0.120012345, 0.059923456, 0.574932109))",
+                                  "J": np.asarray(J).tolist(), "expected": [0, 0, 1]}
+
+
 def _c17_coerced(kind):
     def run():
         import magpylib as magpy
@@ -127,7 +139,7 @@ def _c20_trace_kwargs():
 REPLAYS = {
     "C17": {"coerced-entry:None": _c17_coerced("None"), "coerced-entry:numeric-string": _c17_coerced("numeric-string"),
             "foreign-error:TriangularMesh.from_mesh:ValueError": _c17_from_mesh_valueerror},
-    "C02": {"mu0-literal:BaseMagnet-setters": _c02_mu0_literal},
+    "C02": {"mu0-literal:BaseMagnet-setters": _c02_mu0_literal, "j-indicator:TriangularMesh:ray-through-edge": _c02_ray_through_edge},
     "C15": {
         **{f"non-finite:Dipole:{variant}:{f}": _nonfinite(_dipole, [[5e-324, 0.0, 0.0], [1e-160, 1e-160, 1e-160]], f)
            for variant in ("plain", "tiny", "huge", "zero-size") for f in "BH"},
